@@ -372,7 +372,7 @@ def bounded(tier, seed):
     res = native("boundaries.py", {"seed": seed, "n": n}, timeout=3000)
     if not res.get("ok"):
         raise RuntimeError(f"native driver failed: {res}")
-    return [engine_crosscheck(tier, seed), {"name": "conditions_at_the_boundary_all_types_aliases_formats_backends", "bound": f"{n} random grids per class x every BC type/alias/format x ranks 0-2 x numpy and numba setters",
+    return [engine_crosscheck(tier, seed), {"name": "conditions_at_the_boundary_all_types_aliases_formats_backends", "bound": f"{n} random grids per class x every BC type/alias/format x ranks 0-2 x numpy and numba setters; precedence of a one-sided condition over the axis-wide and the '*' condition; coordinate-dependent value expressions on all six faces of a 3-d grid",
              "cases": res["cases"], "failures": res["failures"]}]
 
 
